@@ -14,6 +14,8 @@ C12 line-protocol driver.
       resp  = g:<tree|->:<etag path hex> | w | d:<tree> (/adapt) | r | amb | F<status>:<class>
       ids   = for every distinct "@id" text in the config, sorted: <hex>=<resp of GET /id/<text>, etag path only>
   cas <k> <n>                 k concurrent clients × n conditional increments → `cas <k*n>`
+  idrace <n> | peek <k> <n>   concurrency samples on the real handler for Regions.lean: the two critical
+                              sections of /id/ requests; a rejected write is invisible to concurrent readers
   clean <p> | join <a> <b> | fields <s> | atoi <s> | itoa <n> | route <p>
                               the byte-level models of path.Clean, path.Join, strings.Fields,
                               strconv.Atoi/Itoa and the ServeMux dispatch, against the real functions
@@ -356,6 +358,12 @@ def handle : List String → String
     match n.toNat? with
     | some k => if 1 ≤ k ∧ k ≤ 2000 then "idrace" else "bad-op"
     | none => "bad-op"
+  | ["peek", k, n] =>
+    -- concurrent readers while rejected writes are processed (one critical section each, Regions.lean):
+    -- nothing to compute, the oracle asserts that no reader sees a trace of them
+    match k.toNat?, n.toNat? with
+    | some k, some n => if 1 ≤ k ∧ k ≤ 32 ∧ 1 ≤ n ∧ n ≤ 2000 then "peek" else "bad-op"
+    | _, _ => "bad-op"
   | ["cas", k, n] =>
     match k.toNat?, n.toNat? with
     | some k, some n => if 1 ≤ k ∧ k ≤ 64 ∧ 1 ≤ n ∧ n ≤ 1000 then "cas " ++ toString (k * n) else "bad-op"
